@@ -162,6 +162,18 @@ def run(prog, tier):
                 res.ok('validate-then-mutate', inst + ': ' + key, f.loc(n['id']), 'callee guard already tested by a dominating guard of the caller', function=f.sig, expr=key)
                 continue
             ent = [i for i in inv if i['function'] == f.qname and i['callee'] == cq and set(i['classes']) >= left]
+            if not ent:
+                # a by-name accessor that is `positional(indexByName(name))` over the listed look-up, called with the same name: the same case
+                cf_ = prog.funcs.get(n['callee'].get('usr'))
+                for i in inv:
+                    if i['function'] != f.qname or not set(i['classes']) >= left or cf_ is None or cf_.body is None or len(cf_.params) != 1:
+                        continue
+                    Rc = Renderer(cf_)
+                    inner = [c_ for c_ in cf_.calls() if c_['callee']['qname'] == i['callee'] and [Rc.render(a_) for a_ in cf_.call_args(c_)] == ['arg0']]
+                    others = [t_ for t_ in cf_.all_nodes({'CXXThrowExpr'}) if t_.get('throw_t') in left]
+                    listed_names = {R.render(a_) for c_ in f.calls() if c_['callee']['qname'] == i['callee'] for a_ in f.call_args(c_)[:1]}
+                    if inner and not others and [R.render(a_) for a_ in f.call_args(n)][:1] and R.render(f.call_args(n)[0]) in listed_names:
+                        ent = [i]
             if ent and ent[0].get('check') == 'group-name-stored-as-given' and not group_name_stored_as_given(prog):
                 res.viol('validate-then-mutate', inst + ': ' + key, f.loc(n['id']),
                          'call of %s may throw %s after the group was created: the look-up uses the caller\'s name but Group no longer stores the name as given (it is transformed on the way in), '
